@@ -272,6 +272,8 @@ class Batch(object):
         self.budget_s = budget_s
         self.results = {}
         self.want_cases = want_cases
+        if unsteered_every and os.environ.get("VERIF_UNSTEERED"):
+            unsteered_every = 1          # every run unsteered: used to regenerate the replays of open findings
         self.unsteered_every = unsteered_every
         self.harness_errors = []
         self.skipped = 0
@@ -647,6 +649,26 @@ def run_check(machine, tier, seed=None, runs=None, jobs=None):
         if rec.get("viol"):
             viols.append(rec)
 
+    # every open known finding has a committed replay; it is re-executed on every check so that
+    # the finding is re-confirmed (or seen to be gone) whatever the seeded batch happened to reach
+    known_gone = []
+    for e in open_known:
+        kpath = os.path.join(VERIF_DIR, "known_replays", "%s.json" % e.get("id"))
+        if not os.path.exists(kpath):
+            continue
+        with open(kpath) as fd:
+            kcase = json.load(fd)["case"]
+        res = run_case_isolated(machine, kcase)
+        probes["known_replays_executed"] = probes.get("known_replays_executed", 0) + 1
+        if res.get("harness_error"):
+            batch.harness_errors.append(res)
+        elif res.get("viol"):
+            viols.append({"i": -1, "seed": kcase.get("seed", 0), "case": kcase, "viol": res["viol"]})
+        else:
+            known_gone.append(e.get("id"))
+            print("KNOWN-FINDING-NOT-REPRODUCED property=%s %s: its recorded replay %s runs clean on this tree"
+                  % (machine.pid, e.get("id"), kpath))
+
     status = 0
     if batch.harness_errors:
         print("HARNESS-ERROR in %d runs; first:\n%s" %
@@ -668,7 +690,10 @@ def run_check(machine, tier, seed=None, runs=None, jobs=None):
         recs = groups[key]
         rec = min(recs, key=lambda r: (len(r["case"]["actions"]), r["i"]))
         sh = Shrinker(machine, rec["case"], rec["viol"], open_known, max_evals=machine.shrink_max_evals)
-        case, viol = sh.shrink()
+        if rec["i"] == -1:
+            case, viol = rec["case"], rec["viol"]      # the committed replay of a known finding is minimal already
+        else:
+            case, viol = sh.shrink()
         tag = "%d" % rec["seed"]
         path = write_replay(machine, case, viol, tag)
         ok, out = confirm_in_fresh_process(machine, path)
@@ -742,6 +767,7 @@ def run_check(machine, tier, seed=None, runs=None, jobs=None):
             "probes_at_zero": sorted(k for k in machine.expected_probes if not probes.get(k)),
             "violation_groups": reported,
             "known_findings_open": [e.get("id") for e in open_known],
+            "known_findings_not_reproduced": known_gone,
             "determinism_selftest": st,
             "components_real": machine.real_components,
             "components_stub": machine.stub_components,
